@@ -102,6 +102,11 @@ def _apply_one(cx, rules, tag):
     for rule, ms in d["counts"].items():
         if rule in rules:
             for m, n in ms.items():
+                # several configurations run the same rule: report the smallest population (floors are lower bounds)
+                seen = cx.__dict__.setdefault("_lea_counts", {})
+                if isinstance(n, int) and (rule, m) in seen:
+                    n = min(n, seen[(rule, m)])
+                seen[(rule, m)] = n
                 cx.count(rule, m, n)
     cx.analysed.setdefault("LEA", {})[tag] = {
         "modes": len(d["modes"]), "paths": sum(m["paths"] for m in d["modes"]),
